@@ -200,6 +200,52 @@ def full_range_fields(rng, statement_years=False):
     return f
 
 
+# ---------------------------------------------------------------- element sets hugging a threshold of the model
+def brouwer(mm_revday, ecc, incl_deg):
+    """Spacetrack-Report-#3 recovery of the Brouwer mean motion / semi-major axis from the printed (Kozai) mean motion:
+    returns (perigee height km, period min).  Own transcription (WGS-72 constants), independent of pyorbital."""
+    ck2, xke, xkmper = 5.413080e-4, 0.743669161e-1, 6378.135
+    xno = mm_revday * 2 * math.pi / 1440.0
+    a1 = (xke / xno) ** (2.0 / 3.0)
+    cosio = math.cos(math.radians(incl_deg))
+    x3thm1 = 3 * cosio * cosio - 1
+    betao2 = 1 - ecc * ecc
+    betao = math.sqrt(betao2)
+    del1 = 1.5 * ck2 * x3thm1 / (a1 * a1 * betao * betao2)
+    ao = a1 * (1 - del1 * (1.0 / 3.0 + del1 * (1 + 134.0 / 81.0 * del1)))
+    delo = 1.5 * ck2 * x3thm1 / (ao * ao * betao * betao2)
+    xnodp = xno / (1 + delo)
+    aodp = ao / (1 - delo)
+    return (aodp * (1 - ecc) - 1) * xkmper, 2 * math.pi / xnodp
+
+
+def threshold_fields(rng, kind=None):
+    """Overrides (incl, ecc, mmotion) for a near-earth set whose model perigee (220 / 156 / 98 km) or period (225 min) lies
+    within a log-uniformly small distance of the threshold, on either side: the printed mean motion is located by bisection
+    on `brouwer` and then moved by 1e-8 ... 1e-3 rev/day (millimetres to hundreds of metres; 1e-7 ... 0.05 min)."""
+    kind = kind or rng.choice(["perigee220", "perigee220", "period225", "period225", "perigee156", "perigee98"])
+    incl = rng.choice([rng.uniform(1, 179), 98.0, 90.0, 10.0, 63.4349, 170.0, 51.6])
+    if kind == "period225":
+        ecc = rng.choice([rng.uniform(0.0, 0.6), 0.1, 0.0001, 0.3])
+        lo, hi, target, idx = 6.0, 6.8, 225.0, 1
+    else:
+        ecc = rng.choice([rng.uniform(0.0, 0.25), 0.15, 0.01, 0.001, 0.05])
+        lo, hi, target, idx = 8.0, 17.5, {"perigee220": 220.0, "perigee156": 156.0, "perigee98": 98.0}[kind], 0
+    e7 = min(int(ecc * 1e7), 9999999)
+    ecc = e7 / 1e7
+    f = lambda mm: brouwer(mm, ecc, incl)[idx] - target      # decreasing in mm for both quantities
+    if not (f(lo) > 0 > f(hi)):
+        return threshold_fields(rng, kind)
+    for _ in range(80):
+        mid = 0.5 * (lo + hi)
+        if f(mid) > 0:
+            lo = mid
+        else:
+            hi = mid
+    mm = 0.5 * (lo + hi) + rng.choice([-1, 1]) * 10 ** rng.uniform(-8, -3 if kind != "period225" else -2)
+    return {"incl": "%8.4f" % incl, "ecc": "%07d" % e7, "mmotion": "%11.8f" % mm}, kind
+
+
 def random_tle(rng, regime="any", overrides=None):
     f = random_fields(rng, regime, overrides)
     l1, l2 = encode(f)
